@@ -33,19 +33,26 @@ class Source(PartHandler):
 
     def __init__(self, name = None, part_generator = None, cycle_time = 0.0,
                  starting_parts = float('inf')):
-        super().__init__(name, None, cycle_time, value = 0)
-
-        if part_generator == None:
-            self._part_generator = PartGenerator(name_prefix = f'Part_{self.id}')
-        else:
+        # Attributes are set before calling the base constructor because
+        # it initializes the Asset immediately when the simulation is
+        # already in progress.
+        if part_generator != None:
             assert_is_instance(part_generator, PartGenerator)
-            self._part_generator = part_generator
-
+        self._part_generator = part_generator
         self._max_produced_parts = starting_parts
         self._cost_of_produced_parts = 0
         self._produced_parts = 0
+        super().__init__(name, None, cycle_time, value = 0)
+        self._ensure_part_generator()
+
+    def _ensure_part_generator(self):
+        # The default PartGenerator uses the Asset ID which is assigned
+        # by the base constructor.
+        if self._part_generator == None:
+            self._part_generator = PartGenerator(name_prefix = f'Part_{self.id}')
 
     def initialize(self, env):
+        self._ensure_part_generator()
         super().initialize(env)
         self._schedule_finish_cycle()
 
